@@ -78,6 +78,10 @@ func (f *Frame) instr(ins ssa.Instruction, st *state) {
 			binds = append(binds, f.val(b))
 		}
 		f.bind(x, Val{S: []string{"1"}, Fn: x.Fn.(*ssa.Function), Binds: binds})
+	case *ssa.MakeChan:
+		f.makeChan(x, st)
+	case *ssa.Send:
+		f.chanSend(x, st)
 	case *ssa.MakeSlice:
 		f.makeSlice(x, st)
 	case *ssa.MakeMap:
@@ -116,6 +120,10 @@ func (f *Frame) instr(ins ssa.Instruction, st *state) {
 		} else if fv, ok := f.vals[x.Call.Value]; ok && fv.Fn != nil {
 			callee, binds = fv.Fn, fv.Binds
 		}
+		if b, ok := x.Call.Value.(*ssa.Builtin); ok && b.Name() == "close" && f.loopDepthOf(x.Block()) == 0 {
+			f.defers = append(f.defers, deferred{builtin: b, guard: st.reach, ins: x})
+			return
+		}
 		if callee == nil || x.Call.IsInvoke() || f.loopDepthOf(x.Block()) > 0 {
 			f.unsupported(st, ins, "defer of a dynamic call or inside a loop")
 			return
@@ -129,7 +137,12 @@ func (f *Frame) instr(ins ssa.Instruction, st *state) {
 		for i := len(f.defers) - 1; i >= 0; i-- {
 			d := f.defers[i]
 			sub := &state{reach: and(st.reach, d.guard), mem: st.mem}
-			f.callStatic(sub, d.fn, d.args, d.binds, d.ins, nil)
+			if d.builtin != nil {
+				sub.mem = st.mem.clone()
+				f.builtin(sub, d.builtin, &d.ins.(*ssa.Defer).Call, d.ins, nil)
+			} else {
+				f.callStatic(sub, d.fn, d.args, d.binds, d.ins, nil)
+			}
 			// the deferred call only happened when its defer statement was executed
 			if d.guard == st.reach || d.guard == "true" {
 				st.mem = sub.mem
@@ -255,6 +268,9 @@ func (f *Frame) unop(x *ssa.UnOp, st *state) {
 			}
 		}
 		f.bind(x, u.load(st, v.S[0], elem, f.ptrHint(x.X, v), true))
+	case token.ARROW:
+		// receive: an unknown value of the element type (sequential model, see the channel section below)
+		f.bindHavoc(x, st)
 	case token.NOT:
 		f.bind(x, Val{S: []string{not(v.S[0])}})
 	case token.SUB:
@@ -782,4 +798,44 @@ func (f *Frame) typeAssert(x *ssa.TypeAssert, st *state) {
 	}
 	u.oblige(f, st, "typeassert", f.ordLabel(x, "typeassert"), x.Pos(), ok)
 	f.bind(x, payload)
+}
+
+// ---------- channels: sequential ghost model ----------
+// A channel is an identity with ghost state: the number of values sent on it, the last value sent, and a closed flag.
+// Sending records the value (and must not happen on a closed channel: panic); close must not be repeated or applied
+// to nil (panic); receiving yields an unknown value. Blocking, buffering, goroutines and select are outside the model:
+// contracts over this state describe what one goroutine does to its channels, nothing about schedules.
+const (
+	chanCountSite  = "chan.$sent"
+	chanClosedSite = "chan.$closed"
+)
+
+func chanLastSite(elem types.Type, k int) string {
+	return fmt.Sprintf("chan.%s.$last#%d", typeKey(elem), k)
+}
+
+func (f *Frame) makeChan(x *ssa.MakeChan, st *state) {
+	u := f.u
+	id := u.alloc(st, "1")
+	u.setArr(st.mem, chanCountSite, SInt, store(u.arr(st.mem, chanCountSite, SInt), id, "0"))
+	u.setArr(st.mem, chanClosedSite, SBool, store(u.arr(st.mem, chanClosedSite, SBool), id, "false"))
+	f.bind(x, Val{S: []string{id}})
+}
+
+func (u *Unit) chanRecord(st *state, ch Val, elem types.Type, v Val) {
+	cnt := u.arr(st.mem, chanCountSite, SInt)
+	u.setArr(st.mem, chanCountSite, SInt, store(cnt, ch.S[0], add(sel(cnt, ch.S[0]), "1")))
+	for k, l := range leavesOf(elem, "elem") {
+		site := chanLastSite(elem, k)
+		u.setArr(st.mem, site, l.Sort, store(u.arr(st.mem, site, l.Sort), ch.S[0], v.S[k]))
+	}
+}
+
+func (f *Frame) chanSend(x *ssa.Send, st *state) {
+	u := f.u
+	ch, v := f.val(x.Chan), f.val(x.X)
+	elem := x.Chan.Type().Underlying().(*types.Chan).Elem()
+	closed := sel(u.arr(st.mem, chanClosedSite, SBool), ch.S[0])
+	u.oblige(f, st, "panic", f.ordLabel(x, "send")+" send on closed channel", x.Pos(), or(eq(ch.S[0], "0"), not(closed)))
+	u.chanRecord(st, ch, elem, v)
 }
